@@ -104,4 +104,20 @@ theorem getDb_setDb_ne (s : State) (r r' : Nat) (db : Db) (h : (r == r') = false
 @[simp] theorem table_setDb (s : State) (r : Nat) (db : Db) : (s.setDb r db).table = s.table := by
   unfold State.setDb; rfl
 
+theorem getDb_setSession (s : State) (c : Nat) (x : Session) (r : Nat) : (s.setSession c x).getDb r = s.getDb r := by
+  simp [State.getDb]
+
+theorem getDb_tableRef (s : State) (i r : Nat) : (s.tableRef i).1.getDb r = s.getDb r := by
+  unfold State.tableRef
+  split
+  · rfl
+  · simp only [State.getDb, List.find?_append]
+    cases h : List.find? (fun x => x.1 == r) s.heap with
+    | some p => simp
+    | none =>
+      simp only [Option.none_or, Option.map_none, Option.getD_none]
+      simp only [List.find?_cons, List.find?_nil]
+      split <;> rfl
+
+
 end RedisEmu
